@@ -308,6 +308,7 @@ def units_B(tier):
         _wrap(us, "C08.%s.undefined_element_reported_not_dereferenced" % f, NG.unit_null_guards, f)
     from props import c08_bounds as BD
     _wrap(us, "C08.get_token.charge_buffer_index_stays_below_its_capacity", BD.unit_get_token_charge)
+    _wrap(us, "C08.spread_row_to_solution.cells_of_a_short_data_row_are_not_read", BD.unit_spread_row_cells)
     from props import c08_errors as ER
     _wrap(us, "C08.errors.Phreeqc_error_msg_makes_the_call_fail", ER.unit_phreeqc_error_msg)
     _wrap(us, "C08.errors.get_input_errors", ER.unit_get_input_errors)
